@@ -1092,7 +1092,7 @@ func grpcIDBits(re string) string {
 	return strings.Join(parts, ",")
 }
 
-// grpcQueries: 0-2 label queries of 1-2 terms over the label universe of uLabels; every
+// grpcQueries: 0-2 label queries of 0-2 terms over the label universe of uLabels; every
 // value-taking term carries a value (value-less terms belong to the raw stream)
 func grpcQueries(r *Rand) string {
 	var qs resource.LabelQueries
@@ -1100,7 +1100,12 @@ func grpcQueries(r *Rand) string {
 	for n := r.Intn(3); n > 0; n-- {
 		var q resource.LabelQuery
 
-		for m := 1 + r.Intn(2); m > 0; m-- {
+		m := 1 + r.Intn(2)
+		if r.Chance(1, 6) {
+			m = 0 // a query without terms matches everything: as one of several alternatives it makes the whole selector match
+		}
+
+		for ; m > 0; m-- {
 			t := resource.LabelTerm{Key: Pick(r, []string{"k1", "k2", "k3", "k4", "zz"}), Op: Pick(r, grpcOps), Invert: r.Chance(1, 4)}
 
 			nv := 1 + r.Intn(2)
